@@ -157,6 +157,15 @@ func renderMySQL(c Case) myRendered {
 		return "(" + strings.Join(parts, " "+strings.ToUpper(k.K)+" ") + ")"
 	}
 	var b strings.Builder
+	if c.Q.Sub && !c.Q.Join && !c.Q.Alias {
+		fmt.Fprintf(&b, "SELECT id, s FROM t WHERE id IN (SELECT %sid FROM t", idq)
+		if c.Q.Alias {
+			b.WriteString(" AS q")
+		}
+		b.WriteString(" WHERE " + cond(c.Q.Where) + ")")
+		r.SQL = b.String()
+		return r
+	}
 	fmt.Fprintf(&b, "SELECT %sid, %ss", idq, tq)
 	if c.Q.Join {
 		b.WriteString(", u.tag")
@@ -410,6 +419,22 @@ func runMySQL(c Case, sql string, params [][]byte, trows, urows [][]pgsess.Value
 	if !ok {
 		return nil, fmt.Errorf("emitted statement is a %T", stmt)
 	}
+	// SELECT ... FROM t WHERE id IN (SELECT id FROM t ... WHERE cond): the rows of t whose id the inner SELECT yields
+	if sel.Where != nil {
+		if in, ok := sel.Where.Expr.(*sqlparser.ComparisonExpr); ok && in.Operator == sqlparser.InStr {
+			if sub, ok := in.Right.(*sqlparser.Subquery); ok {
+				inner, ok := sub.Select.(*sqlparser.Select)
+				if col, isCol := in.Left.(*sqlparser.ColName); !ok || !isCol || !strings.EqualFold(col.Name.String(), "id") {
+					return nil, fmt.Errorf("unexpected sub-query shape: %s", sqlparser.String(sel.Where))
+				}
+				return runMySQLSelect(c, inner, params, trows, urows)
+			}
+		}
+	}
+	return runMySQLSelect(c, sel, params, trows, urows)
+}
+
+func runMySQLSelect(c Case, sel *sqlparser.Select, params [][]byte, trows, urows [][]pgsess.Value) ([]int, error) {
 	env := &myEnv{c: c, talias: "t", params: params}
 	var on sqlparser.Expr
 	var scan func(te sqlparser.TableExpr) error
